@@ -80,6 +80,14 @@ def run(ctx):
     n = check_elemref(ctx, prog)
     ctx.floor('R-ELEMREF functions', n, 8)
 
+    # ---------------------------------------------------------------- value-returning members do not hand out their own storage
+    n = check_fresh(ctx, prog)
+    ctx.floor('R-SHARE value-returning members', n, 10)
+
+    # ---------------------------------------------------------------- tail moves cover exactly the old tail
+    n = check_tailmove(ctx, prog)
+    ctx.floor('R-TAILMOVE', n, 2)
+
     # ---------------------------------------------------------------- thin wrappers
     n = 0
     for cls in ('asl::Stack', 'asl::Queue'):
@@ -171,6 +179,145 @@ def check_selfarg(ctx, prog, ac):
                               'the live length of `%s` is re-read after this array changed its own size; `%s` may be the same array (instantiation %s%s)' % (p['n'], p['n'], f['q'], f['sig']))
             else:
                 ctx.ok('R-SELFARG', f['pq'], role, fwhere(f), 'length of the argument is taken before any size change of the receiver', nontrivial=f['pq'] in changers)
+    return n
+
+
+# ------------------------------------------------------------------------------------------------ R-SHARE / R-TAILMOVE
+
+def check_fresh(ctx, prog):
+    """A const member that returns an Array *by value* promises a new array (concat, slice, reversed, map, clone ...). Returning
+    `*this` or a by-reference parameter copy-constructs a handle, i.e. shares the storage: later changes through either show in both."""
+    n = 0
+    for f in prog.functions:
+        if f.get('clsp') != 'asl::Array' or not f.get('body') or f.get('implicit') or not f.get('const') or f.get('kind') != 'method':
+            continue
+        rt = T(f, f.get('ret'))
+        if rt.get('ref') or rt.get('recp') != 'asl::Array' or rt.get('rec') != f.get('cls'):
+            continue
+        n += 1
+        ctx.analysed(f)
+        bad = []
+        for s_ in ir.walk_stmts(f['body']):
+            if s_.get('k') == 'return' and s_.get('e') is not None:
+                e = strip(s_['e'])
+                while e.get('k') == 'construct' and e.get('copy') and e.get('a'):
+                    e = strip(e['a'][0])
+                if e.get('k') == 'un' and e.get('op') == '*' and strip(e['e']).get('k') == 'this':
+                    bad.append((s_['l'], '*this'))
+                elif e.get('k') == 'var' and e.get('vk') == 'param' and T(f, e.get('dt') or e.get('t')).get('ref'):
+                    bad.append((s_['l'], e['n']))
+        role = f['n'] + ':returns a new array, not a handle to existing storage'
+        if bad:
+            ctx.violation('R-SHARE', f['pq'], role, fwhere(f, bad[0][0]), '%s returns `%s` by value on some path: the result is another handle to the same storage, so a later change through the result or the source shows in both (and growth leaves the other dangling) (%s%s)' % (f['pq'], bad[0][1], f['q'], f['sig']))
+        else:
+            ctx.ok('R-SHARE', f['pq'], role, fwhere(f), 'every return yields a freshly built array')
+    return n
+
+
+def linear(f, e, env):
+    """e as a linear form {var id or name: coeff, 1: const} over int variables; None if not linear."""
+    e = strip(e)
+    v = const_val(e)
+    if v is not None:
+        return {1: v}
+    k = e.get('k')
+    if k == 'var':
+        return {e['id']: 1}
+    if k == 'bin' and e.get('op') in ('+', '-'):
+        a, b = linear(f, e['x'], env), linear(f, e['y'], env)
+        if a is None or b is None:
+            return None
+        out = dict(a)
+        for kk, vv in b.items():
+            out[kk] = out.get(kk, 0) + (vv if e['op'] == '+' else -vv)
+        return out
+    if k == 'bin' and e.get('op') == '*':
+        a, b = linear(f, e['x'], env), linear(f, e['y'], env)
+        if a is None or b is None:
+            return None
+        if set(a) <= {1}:
+            return dict((kk, vv * a.get(1, 0)) for kk, vv in b.items())
+        if set(b) <= {1}:
+            return dict((kk, vv * b.get(1, 0)) for kk, vv in a.items())
+        return None
+    return None
+
+
+def ptr_offset(f, e):
+    """offset (in elements) of a pointer expression based on _a: _a + X, (char*)_a + X*sizeof(T), &_a[X]"""
+    e = strip(e)
+    if e.get('k') == 'mem' and e.get('f') == '_a':
+        return {1: 0}, 1
+    if e.get('k') == 'bin' and e.get('op') == '+':
+        base, scale = ptr_offset(f, e['x'])
+        if base is not None:
+            off = linear(f, e['y'], None)
+            if off is None:
+                return None, None
+            # pointer arithmetic on char* after a cast: offset is in bytes
+            tx = T(f, strip_lv(e['x']).get('t'))
+            to = T(f, tx.get('to'))
+            out = dict(base)
+            for kk, vv in off.items():
+                out[kk] = out.get(kk, 0) + vv
+            return out, (to.get('sz') or 1)
+    return None, None
+
+
+def check_tailmove(ctx, prog):
+    """memmove(dst, src, count) that shifts the tail of the element storage: source offset + element count moved == old length
+    (all expressed as linear forms over the function's int variables), so the move neither reads past the live elements nor
+    leaves live elements behind."""
+    n = 0
+    for f in prog.functions:
+        if f.get('clsp') != 'asl::Array' or not f.get('body') or f.get('implicit') or f['n'] not in ('remove', 'insert'):
+            continue
+        nvars = n_loads_into(f)
+        esz = None
+        for e in fn_exprs(f):
+            if e.get('k') == 'call' and e.get('fn') == 'memmove' and len(e.get('a', [])) == 3:
+                n += 1
+                ctx.analysed(f)
+                # element size: sizeof(T) factor in the count
+                szs = [w['v'] for w in walk_expr(e['a'][2]) if w.get('k') == 'int' and w.get('sizeof') is not None]
+                esz = szs[0] if szs else None
+                cnt = linear(f, e['a'][2], None)
+                role = f['n'] + ':tail move covers exactly the old tail'
+                if cnt is None or not esz:
+                    ctx.undecided('R-TAILMOVE', f['pq'], role, fwhere(f, e['l']), 'move count `%s` is not linear with a sizeof factor' % pe(e['a'][2]))
+                    continue
+                cnt = dict((kk, vv / esz) for kk, vv in cnt.items())
+                # source offset in elements
+                src = strip(e['a'][1])
+                off = None
+                x = src
+                while x.get('k') == 'cast':
+                    x = strip(x['e'])
+                if x.get('k') == 'bin' and x.get('op') == '+':
+                    bx = strip(x['x'])
+                    scale = 1
+                    tb = T(f, bx.get('t'))
+                    if bx.get('k') == 'mem' and bx.get('f') == '_a':
+                        off = linear(f, x['y'], None)
+                    elif bx.get('k') == 'bin' and bx.get('op') == '+' and strip(bx['x']).get('f') == '_a':
+                        a1, a2 = linear(f, bx['y'], None), linear(f, x['y'], None)
+                        if a1 is not None and a2 is not None:
+                            off = dict(a1)
+                            for kk, vv in a2.items():
+                                off[kk] = off.get(kk, 0) + vv
+                elif x.get('k') == 'mem' and x.get('f') == '_a':
+                    off = {1: 0}
+                if off is None:
+                    ctx.undecided('R-TAILMOVE', f['pq'], role, fwhere(f, e['l']), 'source `%s` is not _a + linear offset' % pe(e['a'][1]))
+                    continue
+                total = dict(off)
+                for kk, vv in cnt.items():
+                    total[kk] = total.get(kk, 0) + vv
+                total = dict((kk, vv) for kk, vv in total.items() if abs(vv) > 1e-9)
+                ok = len(total) == 1 and list(total.values())[0] == 1 and list(total.keys())[0] in nvars
+                ctx.evaluations += 1
+                ctx.check(ok, 'R-TAILMOVE', f['pq'], role, fwhere(f, e['l']), 'source offset + elements moved = old length',
+                          '%s moves `%s` bytes from `%s`: source offset + element count is not the old element count, so the move reads past the live elements (or leaves some behind) (%s%s)' % (f['n'], pe(e['a'][2]), pe(e['a'][1]), f['q'], f['sig']))
     return n
 
 
